@@ -49,13 +49,40 @@ def _pairs(P, m1, m2):
     return [(a, P // a) for a in range(1, min(P, m1) + 1) if P % a == 0 and P // a <= m2]
 
 
-def check_triple(m1, m2, P, traced=False):
+class _Alarm(Exception):
+    pass
+
+
+def _guarded(f, args, budget, seconds=5.0):
+    """
+    Untraced call under a wall-clock alarm.  The alarm is never a verdict: when it fires the call is
+    repeated under the deterministic line-event budget, which decides.
+    """
+    def on_alarm(sig, frm):
+        raise _Alarm()
+    old = signal.signal(signal.SIGALRM, on_alarm)
+    signal.setitimer(signal.ITIMER_REAL, seconds)
+    try:
+        try:
+            return f(*args)
+        finally:
+            signal.setitimer(signal.ITIMER_REAL, 0)
+    except _Alarm:
+        return _traced(f, args, budget)
+    finally:
+        signal.signal(signal.SIGALRM, old)
+
+
+def check_triple(m1, m2, P, traced=False, guarded=False):
     """Returns number of admissible factorisations; raises Violation."""
     from pygyro.model.process_grid import compute_2d_process_grid_from_max as f
     valid = _pairs(P, m1, m2)
+    budget = 50 * (P + m1) + 1000
     try:
         if traced:
-            res = _traced(f, (m1, m2, P), 50 * (P + m1) + 1000)
+            res = _traced(f, (m1, m2, P), budget)
+        elif guarded:
+            res = _guarded(f, (m1, m2, P), budget)
         else:
             res = f(m1, m2, P)
     except RuntimeError:
@@ -65,7 +92,7 @@ def check_triple(m1, m2, P, traced=False):
         return 0
     except _Budget:
         raise Violation("C20:nontermination", "max=(%d,%d) P=%d: more than %d line events"
-                        % (m1, m2, P, 50 * (P + m1) + 1000))
+                        % (m1, m2, P, budget))
     except Violation:
         raise
     except Exception as e:  # noqa
@@ -83,7 +110,7 @@ def check_triple(m1, m2, P, traced=False):
     return len(valid)
 
 
-class _Slow(Exception):
+class _Slow(BaseException):
     pass
 
 
@@ -110,7 +137,7 @@ def box_slab(case):
     def on_alarm(sig, frm):
         raise _Slow()
     old = signal.signal(signal.SIGALRM, on_alarm)
-    signal.setitimer(signal.ITIMER_REAL, 600.0)
+    signal.setitimer(signal.ITIMER_REAL, 30.0)
     try:
         try:
             evals, nontriv, sample = run(False)
@@ -170,7 +197,7 @@ def far_pred(case):
     m1, m2, P = case["max1"], case["max2"], case["P"]
     if P + m1 > 20000:
         # the line budget would dominate the run time: untraced call, brute force still decides validity
-        nv = check_triple(m1, m2, P, traced=False)
+        nv = check_triple(m1, m2, P, guarded=True)
     else:
         nv = check_triple(m1, m2, P, traced=True)
     return {"nontrivial": nv == 0 or nv >= 2, "labels": [case["kind"], "none" if nv == 0 else ("one" if nv == 1 else "many")]}
